@@ -96,6 +96,7 @@ impl Property for C12 {
             ("values:run".into(), m * 6),
             ("type:PublicKeyPackage-legacy".into(), m),
             ("type:refresh-round1-Package".into(), m),
+            ("vss-commitment:single-entry".into(), m),
             ("bytes:catalogue".into(), 6),
             ("bytes:random".into(), m),
             ("bytes:bitflip".into(), m),
@@ -238,38 +239,12 @@ fn values<C: Suite>(shape: Shape, ids: IdSpec, seed: u64, ctx: &mut Ctx) -> Chec
     for cc in sshare.commitment().coefficients() {
         rt_prim_e!(ctx, "CoefficientCommitment", CoefficientCommitment<C>, cc, ne);
     }
-    {
-        // VSS commitment: list form and whole form
-        ctx.eval("value,VerifiableSecretSharingCommitment", true);
-        ctx.label("type:VerifiableSecretSharingCommitment");
-        let c = sshare.commitment();
-        match c.serialize() {
-            Ok(list) => match VerifiableSecretSharingCommitment::<C>::deserialize(list.clone()) {
-                Ok(c2) => ensure!(ctx, c2 == *c && list.len() == t, "C12/binary-roundtrip-changes-value", "VSS commitment list round trip"),
-                Err(e) => ctx.fail("C12/own-encoding-rejected", format!("VSS commitment list does not decode: {e:?}"))?,
-            },
-            Err(e) => ctx.fail("C12/value-does-not-encode", format!("VSS commitment does not encode: {e:?}"))?,
-        }
-        match c.serialize_whole() {
-            Ok(w) => {
-                ensure!(ctx, w.len() == t * ne, "C12/encoding-length", "serialize_whole length {}", w.len());
-                match VerifiableSecretSharingCommitment::<C>::deserialize_whole(&w) {
-                    Ok(c2) => ensure!(ctx, c2 == *c, "C12/binary-roundtrip-changes-value", "VSS commitment whole round trip"),
-                    Err(e) => ctx.fail("C12/own-encoding-rejected", format!("VSS commitment (whole) does not decode: {e:?}"))?,
-                }
-                // a whole encoding with a partial trailing element is refused
-                let mut w2 = w.clone();
-                w2.push(2);
-                ensure!(ctx, VerifiableSecretSharingCommitment::<C>::deserialize_whole(&w2).is_err(), "C12/wrong-length-accepted", "deserialize_whole accepted a length that is not a multiple of the element length");
-                ensure!(ctx, VerifiableSecretSharingCommitment::<C>::deserialize_whole(&w[..w.len() - 1]).is_err(), "C12/wrong-length-accepted", "deserialize_whole accepted a truncated encoding");
-            }
-            Err(e) => ctx.fail("C12/value-does-not-encode", format!("VSS commitment does not encode (whole): {e:?}"))?,
-        }
-        let js = serde_json::to_string(c).map_err(|e| inconclusive(format!("{e}")))?;
-        match serde_json::from_str::<VerifiableSecretSharingCommitment<C>>(&js) {
-            Ok(c2) => ensure!(ctx, c2 == *c, "C12/json-roundtrip-changes-value", "VSS commitment JSON round trip"),
-            Err(e) => ctx.fail("C12/own-encoding-rejected", format!("VSS commitment JSON does not decode: {e}"))?,
-        }
+    // VSS commitment: list form, whole form and JSON - the dealer's vector (t entries) and every shorter
+    // non-empty vector (refresh commitments have t-1 entries, a single one for t = 2)
+    vss_roundtrip::<C>(ctx, sshare.commitment(), "dealer")?;
+    for l in 1..t {
+        let c = VerifiableSecretSharingCommitment::<C>::new(sshare.commitment().coefficients()[..l].to_vec());
+        vss_roundtrip::<C>(ctx, &c, "prefix")?;
     }
     rt_pkg!(ctx, "SecretShare", SecretShare<C>, sshare);
     rt_pkg!(ctx, "KeyPackage", KeyPackage<C>, kp);
@@ -364,9 +339,11 @@ fn values<C: Suite>(shape: Shape, ids: IdSpec, seed: u64, ctx: &mut Ctx) -> Chec
     {
         let (rshares, rpk) = refresh::compute_refreshing_shares::<C, _>(keys.pubkeys.clone(), &keys.ids, &mut Tape::random(rng.next())).map_err(|e| inconclusive(format!("{e:?}")))?;
         rt_pkg!(ctx, "refresh-SecretShare", SecretShare<C>, &rshares[0]);
+        vss_roundtrip::<C>(ctx, rshares[0].commitment(), "dealer-refresh")?;
         rt_pkg!(ctx, "PublicKeyPackage", PublicKeyPackage<C>, &rpk);
         let rr = crate::props::c10::dkg_refresh_rounds::<C>(&keys.ids, shape.t, rng.next(), "C12")?;
         rt_pkg!(ctx, "refresh-round1-Package", dkg::round1::Package<C>, &rr.r1_pkg[&me]);
+        vss_roundtrip::<C>(ctx, rr.r1_pkg[&me].commitment(), "distributed-refresh")?;
         rt_pkg!(ctx, "refresh-round1-SecretPackage", dkg::round1::SecretPackage<C>, &rr.r1_secret[&me]);
         rt_pkg!(ctx, "refresh-round2-SecretPackage", dkg::round2::SecretPackage<C>, &rr.r2_secret[&me]);
         for p in rr.r2_pkg[&me].values() {
@@ -944,5 +921,44 @@ fn packages<C: Suite>(seed: u64, ctx: &mut Ctx) -> CheckResult {
     flips!("SigningCommitments", SigningCommitments<C>, &b_comm);
     flips!("dkg-round2-Package", dkg::round2::Package<C>, &b_r2);
     flips!("SigningNonces", SigningNonces<C>, &b_nonces);
+    Ok(())
+}
+
+/// list / whole / JSON round trip of one VSS commitment vector
+fn vss_roundtrip<C: Suite>(ctx: &mut Ctx, c: &VerifiableSecretSharingCommitment<C>, origin: &str) -> CheckResult {
+    let ne = el_len::<C>();
+    let l = c.coefficients().len();
+    ctx.eval(&format!("value,VerifiableSecretSharingCommitment,{origin},{l}"), true);
+    ctx.label("type:VerifiableSecretSharingCommitment");
+    if l == 1 {
+        ctx.label("vss-commitment:single-entry");
+    }
+    match c.serialize() {
+        Ok(list) => match VerifiableSecretSharingCommitment::<C>::deserialize(list.clone()) {
+            Ok(c2) => ensure!(ctx, c2 == *c && list.len() == l, "C12/binary-roundtrip-changes-value", "VSS commitment list round trip ({origin}, {l} entries)"),
+            Err(e) => ctx.fail("C12/own-encoding-rejected", format!("VSS commitment list ({origin}, {l} entries) does not decode: {e:?}"))?,
+        },
+        Err(e) => ctx.fail("C12/value-does-not-encode", format!("VSS commitment does not encode: {e:?}"))?,
+    }
+    match c.serialize_whole() {
+        Ok(w) => {
+            ensure!(ctx, w.len() == l * ne, "C12/encoding-length", "serialize_whole length {}", w.len());
+            match VerifiableSecretSharingCommitment::<C>::deserialize_whole(&w) {
+                Ok(c2) => ensure!(ctx, c2 == *c, "C12/binary-roundtrip-changes-value", "VSS commitment whole round trip ({origin}, {l} entries)"),
+                Err(e) => ctx.fail("C12/own-encoding-rejected", format!("VSS commitment (whole; {origin}, {l} entries) does not decode: {e:?}"))?,
+            }
+            // a whole encoding with a partial trailing element is refused
+            let mut w2 = w.clone();
+            w2.push(2);
+            ensure!(ctx, VerifiableSecretSharingCommitment::<C>::deserialize_whole(&w2).is_err(), "C12/wrong-length-accepted", "deserialize_whole accepted a length that is not a multiple of the element length");
+            ensure!(ctx, VerifiableSecretSharingCommitment::<C>::deserialize_whole(&w[..w.len() - 1]).is_err(), "C12/wrong-length-accepted", "deserialize_whole accepted a truncated encoding");
+        }
+        Err(e) => ctx.fail("C12/value-does-not-encode", format!("VSS commitment does not encode (whole): {e:?}"))?,
+    }
+    let js = serde_json::to_string(c).map_err(|e| inconclusive(format!("{e}")))?;
+    match serde_json::from_str::<VerifiableSecretSharingCommitment<C>>(&js) {
+        Ok(c2) => ensure!(ctx, c2 == *c, "C12/json-roundtrip-changes-value", "VSS commitment JSON round trip ({origin}, {l} entries)"),
+        Err(e) => ctx.fail("C12/own-encoding-rejected", format!("VSS commitment JSON ({origin}, {l} entries) does not decode: {e}"))?,
+    }
     Ok(())
 }
